@@ -321,6 +321,43 @@ def boundary_sizes(c, rng, quick):
     return xs
 
 
+def wb_monitor(l, o, c):
+    """implementation-side property check of one white-box `al`/`m` line (independent of the model); None = fine"""
+    w = l.split()
+    if w[0] not in ("al", "m"):
+        return None
+    size = int(w[1])
+    align = (1 << int(w[2])) if w[0] == "al" else 0
+    ow = o.split()
+    d = kv(o)
+    if ow and ow[0] == "S":
+        O, off, ms = int(ow[1]), int(d["off"]), int(d["msize"])
+        need = align if align else (8 if (size or 8) <= 8 else 16)
+        if d["al"] != "1":
+            return "misaligned"
+        if d["fo"] != "1":
+            return "free would not find the object start"
+        if d["hc"] != "1":
+            return "object overlaps the slab header"
+        if off + max(size, 1) > O or ms < size or ms != O - off:
+            return "request does not fit the object (object size %d, offset %d, msize %d)" % (O, off, ms)
+        if align == 0 and (off != 0 or (c["slabSize"] - int(d["k"]) * O) % need):
+            return "default alignment %d not met" % need
+        return None
+    if ow and ow[0] == "L":
+        eff = max(align, c["largeObjectAlignment"])
+        if d["al"] != "1" or int(d["p"]) % eff:
+            return "misaligned"
+        if d["in"] != "1":
+            return "large object not inside its block"
+        if int(d["msize"]) < size or int(ow[2]) != size:
+            return "msize below request"
+        return None
+    if not o.startswith("fail") or size < (1 << 28):
+        return "allocation failed"
+    return None
+
+
 def run_pure(ck, exe, c):
     quick = ck.tier == "quick"
     rng = ck.rng
@@ -404,22 +441,18 @@ def run_pure(ck, exe, c):
             O, off, ms = int(ow[1]), int(d["off"]), int(d["msize"])
             mlines.append(("al %d %s %s" % (size, w[2], d["k"])) if w[0] == "al" else "m %d %s" % (size, d["k"]))
             mexp.append("S %d off=%d msize=%d" % (O, off, ms))
-            # monitors (independent of the model): aligned, inside the object, msize covers the request, object clear of the header
-            need = align if align else (8 if (size or 8) <= 8 else 16)
-            ok = d["al"] == "1" and d["fo"] == "1" and d["hc"] == "1" and off + max(size, 1) <= O and ms >= size and ms == O - off
-            if align == 0:
-                ok = ok and off == 0 and (c["slabSize"] - int(d["k"]) * O) % need == 0
-            if not ok:
-                mon_bad.append((l, o))
+            why = wb_monitor(l, o, c)
+            if why:
+                mon_bad.append((l, o, why))
             ck.distinct.add((w[0], "S", O, off > 0, w[2] if w[0] == "al" else ""))
         elif ow[0] == "L":
             U, osz = int(ow[1]), int(ow[2])
             mlines.append(("al %d %s 1" % (size, w[2])) if w[0] == "al" else "m %d 1" % size)
             eff = max(align, c["largeObjectAlignment"])
             mexp.append("L %d" % eff)
-            ok = d["al"] == "1" and d["in"] == "1" and int(d["msize"]) >= size and osz == size and int(d["p"]) % eff == 0
-            if not ok:
-                mon_bad.append((l, o))
+            why = wb_monitor(l, o, c)
+            if why:
+                mon_bad.append((l, o, why))
             place_lines.append("place %s %d %d %d %s 1" % (d["lmb"], U, size, eff.bit_length() - 1, d["idx"]))
             place_exp.append(d["p"])
             place_src.append((l, o))
@@ -427,8 +460,9 @@ def run_pure(ck, exe, c):
         else:
             # null on the unchanged tree only for sizes the OS wrapper refuses; the model side is checked by C18
             mlines.append(None); mexp.append(o)
-            if not o.startswith("fail") or size < (1 << 28):
-                mon_bad.append((l, o))
+            why = wb_monitor(l, o, c)
+            if why:
+                mon_bad.append((l, o, why))
     ck.extra["pure_input_distribution"] = kinds
     ck.count(len(lines))
     idxm = [i for i, m in enumerate(mlines) if m is not None]
@@ -453,11 +487,28 @@ def run_pure(ck, exe, c):
         ck.sample({"input": lines[n], "impl": impl[n]})
     # ---- failing-input search: report the smallest concrete input on which the PROPERTY fails ------
     if mon_bad:
-        l, o = min(mon_bad, key=lambda t: (int(t[0].split()[1]), t[0]))
-        ck.counterexample("wb:" + l.replace(" ", "="), "front end violates alignment/size/placement for input %r: %s" % (l, o),
-                          {"engine": "E-PURE", "harness": "harness/c17/wb.cpp", "stdin": l, "observed": o, "expect_fields": {"al": "1", "fo": "1", "hc": "1", "in": "1"}})
+        l, o, why = min(mon_bad, key=lambda t: (int(t[0].split()[1]), t[0]))
+        ctx = minimal_context(exe, lines, lines.index(l), c)
+        ck.counterexample("wb:" + l.replace(" ", "="), "%s: input %r (allocateAligned/malloc size, log2 alignment)%s gave %s" % (
+                              why, l, " after %r" % ctx[:-1] if len(ctx) > 1 else "", o),
+                          {"engine": "E-PURE", "harness": "harness/c17/wb.cpp", "stdin": "\n".join(ctx), "observed": o, "why": why, "monitor": "wb_monitor"})
     if not ok and not mon_bad:
         search_pure(ck, exe, c, lines, impl)
+
+
+def minimal_context(exe, lines, idx, c):
+    """smallest input on which the white-box monitor still fires for lines[idx]: the line alone, else with one
+    earlier line (slab state), else with its whole prefix"""
+    def fires(inp):
+        rc, out, err = sh([exe], input="\n".join(inp) + "\n", timeout=600)
+        res = out.split("\n")[:-1]
+        return rc != 0 or len(res) != len(inp) or wb_monitor(inp[-1], res[-1], c) is not None
+    if fires([lines[idx]]):
+        return [lines[idx]]
+    for j in range(idx - 1, max(-1, idx - 300), -1):
+        if lines[j].split()[0] in ("al", "m") and fires([lines[j], lines[idx]]):
+            return [lines[j], lines[idx]]
+    return [l for l in lines[:idx] if l.split()[0] in ("al", "m")][-20000:] + [lines[idx]]
 
 
 def lines_for(lines, mlines, j):
@@ -755,10 +806,14 @@ def run(ck):
                "histories (bursts over a slab, foreign frees, thread exit with live blocks, cleanup commands). distinct = (operation, outcome class)")
     ck.assumptions += [
         "modelled and proved: size->bin/object size, slab layout and bump pointer, allocateAligned case split (generated from source), "
-        "interior pointer recovery (free/msize), large-object placement incl. 32-bit ptrDelta; spec-level shadow heap",
+        "interior pointer recovery (free/msize), large-object placement incl. 32-bit ptrDelta; spec-level shadow heap; slab ownership protocol "
+        "(owner + foreign freers: publicFreeList CAS push / exchange privatise, free list, bump region, allocatedCount) for all schedules",
         "NOT modelled (sampled by the E-REAL shadow-heap monitor only): back end (coalescing, bins, regions), back-reference table, large-object "
         "caches, content preservation by realloc/calloc, the multi-threaded public-free-list / orphan adoption protocol on the implementation",
-        "the slab ownership protocol is modelled (Model/C17.lean `slabSys`) but has no theorem yet and no E-SHIM trace tie",
+        "the slab ownership protocol model (Model/C17.lean `slabSys`) has theorems but NO trace tie to the code (no E-SHIM run of tbbmalloc): it is "
+        "a design-level proof; orphaned-slab adoption (UNUSABLE marker, nextPrivatizable/mailbox) is not in the model. On the implementation the "
+        "protocol is exercised only by the multi-threaded E-REAL histories (a mutation that loses a public free, e.g. privatise by load+store, is a leak, "
+        "not a C17 violation, and is not detected)",
         "64-bit Linux layout (is64bit=1, estimatedCacheLineSize=64) as generated; addresses are assumed < 2^64 - block size"]
     ck.trusted += ["checks/cexpr.py + checks/c17.py Tr2/tr_function/AA_RE (C++ -> Lean translation of alignUp/alignDown and the allocateAligned case split)",
                    "harness/c17/wb.cpp (white-box observation), harness/c17/real.cpp (shadow-heap monitor)",
@@ -778,12 +833,13 @@ def replay(ck, obj):
         if rc != 0:
             print("STILL FAILS (crash)")
             return 1
-        d = kv(out)
-        still = any(d.get(k) not in (None, v) for k, v in r.get("expect_fields", {}).items())
+        _, c = wb_consts("C17")
+        last_in, last_out = r["stdin"].split("\n")[-1], (out.strip().split("\n") or [""])[-1]
+        still = r.get("monitor") == "wb_monitor" and wb_monitor(last_in, last_out, c) is not None
         if "expect_find" in r:
-            still = still or int(out.split()[1]) != r["expect_find"]
+            still = still or int(last_out.split()[1]) != r["expect_find"]
         if r.get("expect") == "objsize>=size":
-            still = still or int(out.split()[1]) < int(r["stdin"].split()[1])
+            still = still or int(last_out.split()[1]) < int(last_in.split()[1])
         print("STILL FAILS" if still else "property holds now")
         return 1 if still else 0
     libdir = real_lib()
